@@ -335,6 +335,10 @@ class RTFDocument(BaseModel):
     def __init__(self, **data):
         super().__init__(**data)
 
+        # Work on private (shallow) copies of the components: the defaults written
+        # below must not leak into objects the caller may share between documents.
+        self._detach_components()
+
         # Set default column widths based on DataFrame dimensions when a
         # DataFrame is provided.
         if self.df is not None:
@@ -392,6 +396,35 @@ class RTFDocument(BaseModel):
 
         # Apply table spacing to text components if needed
         self._apply_table_spacing()
+
+    def _detach_components(self):
+        """Replace component objects by shallow copies owned by this document."""
+
+        def copy_of(component):
+            return component.model_copy() if component is not None else None
+
+        for name in (
+            "rtf_page_header",
+            "rtf_title",
+            "rtf_subline",
+            "rtf_footnote",
+            "rtf_source",
+            "rtf_page_footer",
+        ):
+            setattr(self, name, copy_of(getattr(self, name)))
+
+        if isinstance(self.rtf_body, (list, tuple)):
+            self.rtf_body = [copy_of(body) for body in self.rtf_body]
+        else:
+            self.rtf_body = copy_of(self.rtf_body)
+
+        if self.rtf_column_header is not None:
+            self.rtf_column_header = [
+                [copy_of(h) for h in header]
+                if isinstance(header, (list, tuple))
+                else copy_of(header)
+                for header in self.rtf_column_header
+            ]
 
     def _apply_table_spacing(self):
         """Apply table-based spacing to text components that reference the table."""
